@@ -92,3 +92,45 @@ Module SplitCapExample.
   Example parts : split_off_code [0;1;2;3;4;5] 1 3 = ([0;3;4;5], [1;2]) /\ split_off_buffer [0;1;2;3;4;5] 1 3 = [1;2;0;3;4;5].
   Proof. split; reflexivity. Qed.
 End SplitCapExample.
+
+(* ---------------------------------------------------------------- split_at_spare / into_flattened *)
+Theorem spare_windows_tile len cap : len <= cap ->
+  let '(i, s) := spare_windows len cap in
+  woff i = 0 /\ wlen i = len /\ woff s = woff i + wlen i /\ wlen s = 0 /\
+  wcap i + wcap s = cap /\ woff s + wcap s = cap.
+Proof. intros H. unfold spare_windows. cbn. lia. Qed.
+
+Lemma concat_length_uniform {A} (l : list (list A)) n :
+  Forall (fun x => length x = n) l -> length (concat l) = length l * n.
+Proof.
+  induction l as [|x xs IH]; intros H; [reflexivity|].
+  inversion H as [|? ? Hx Hxs]; subst. cbn [concat length]. rewrite app_length, IH by assumption. lia.
+Qed.
+
+(* element (i, j) of the nested vector is element i * n + j of the flattened one: count and order kept *)
+Lemma concat_nth_uniform {A} (l : list (list A)) n i j x :
+  Forall (fun x => length x = n) l -> nth_error l i = Some x -> j < n ->
+  nth_error (concat l) (i * n + j) = nth_error x j.
+Proof.
+  revert i. induction l as [|y ys IH]; intros i H Hi Hj; [destruct i; discriminate|].
+  inversion H as [|? ? Hy Hys]; subst. destruct i as [|i].
+  - cbn in Hi. injection Hi as <-. cbn [concat Nat.mul Nat.add]. rewrite nth_error_app1 by lia. reflexivity.
+  - cbn in Hi. cbn [concat]. rewrite nth_error_app2 by lia.
+    replace (S i * length y + j - length y) with (i * length y + j) by lia. apply IH; assumption.
+Qed.
+
+Theorem flatten_keeps_count_and_order {A} (l : list (list A)) n :
+  Forall (fun x => length x = n) l ->
+  length (flatten_list l) = length l * n /\
+  (forall i j x, nth_error l i = Some x -> j < n -> nth_error (flatten_list l) (i * n + j) = nth_error x j).
+Proof.
+  intros H. split; [apply concat_length_uniform; exact H|].
+  intros i j x Hi Hj. apply concat_nth_uniform; assumption.
+Qed.
+
+(* the window of the flattened vector: same bytes, lengths and capacities times n, still inside *)
+Theorem flatten_window_scales w n :
+  wlen w <= wcap w ->
+  let f := flatten_window w n in
+  wlen f = wlen w * n /\ wcap f = wcap w * n /\ woff f = woff w * n /\ wlen f <= wcap f.
+Proof. intros H. unfold flatten_window. cbn. repeat split; try reflexivity. nia. Qed.
